@@ -3,10 +3,29 @@
 import json, os, sys
 V = os.path.dirname(os.path.dirname(os.path.abspath(__file__)))
 
+W = "trusted: overlay rewrite (virtual clock), harness spies; sequential histories (schedules are C08/C16)"
 CLAIMED = {
  "C01": dict(level="exploration", engine="E1-world", technique="model-based stateful PBT (rapid) with round-trip + differential oracle against an independent reference decryptor",
    text="Thousands of generated histories over the real SDK (1-3 factories, drawn cache policies, virtual clock, out-of-band revocation/rotation, restarts) with every decrypt compared to the recorded payload, and every record re-decrypted by a fresh factory and by a reference decryptor from a store snapshot. Sampled, not exhaustive; sequential histories.",
    note="trusted: overlay rewrite (clock), the reference decryptor's reading of the docs; schedules are covered by C08/C16, not here", ref="3/C01"),
+ "C02": dict(level="fault_enumeration", engine="E2-faults", technique="fault-position enumeration over rapid-drawn scenarios, oracle = store snapshot + reference decryptor at the instant Encrypt returns",
+   text="For rapid-drawn scenarios (10 key states x cache configurations) every metastore/KMS call index of the operation receives every applicable fault, and every pair of faults (sampled in quick, complete in thorough); a returned record must be decryptable from the store snapshot alone, failures must be errors, and operations after the faults must succeed.",
+   note="faults injected at the Metastore/KMS interfaces of harness fakes; crash = fresh process with snapshot+KMS; trusted: reference decryptor", ref="3/C02"),
+ "C03": dict(level="exploration", engine="E1-world", technique="stateful PBT with invariants over the complete AEAD/KMS/store/log history (spies) and multi-pattern leak scanning",
+   text="Histories with bursts of hundreds of encrypts per key; every AEAD encryption must be one of three legitimate wrap forms with independently derived key identities, all (key, nonce) pairs distinct, keys from CreateRandom in the same call, and no key bytes or payload markers in any emitted record, row, log line or KMS request.",
+   note="uniqueness/provenance/length are checked, not randomness quality; "+W, ref="3/C03"),
+ "C04": dict(level="exploration", engine="E1-world", technique="stateful PBT with virtual clock; invariant over (record, time, store) after every encrypt",
+   text="Generated histories with clock steps concentrated on expiry and revoke-check boundaries; every produced record's IK age, the parents of IK rows written, and use of IKs under expired SKs are checked against the policy at the virtual time of the call.",
+   note=W+"; demanded only when a later creation stamp was available throughout the last interval", ref="3/C04"),
+ "C05": dict(level="exploration", engine="E1-world", technique="stateful PBT with virtual clock and out-of-band revocation; invariant over (record, revocation time, store)",
+   text="Generated histories that revoke latest/older IKs and SKs under live sessions and other processes' rotations; after the bound (1 interval IK, 2 intervals SK, 0 without caching) a record must name an unrevoked stored IK under an unrevoked stored SK, and records under revoked keys must stay decryptable.",
+   note=W+"; demanded only when a later creation stamp was available throughout the last interval", ref="3/C05"),
+ "C09": dict(level="exploration", engine="E1-world+E2-faults", technique="stateful PBT with a tracking SecretFactory (resource-accounting invariants) plus fault-position enumeration (store/KMS/AEAD/allocator)",
+   text="Every secret the SDK allocates is accounted for: DRK closed before Encrypt returns, nothing live after a no-cache call, per-(process,key) live copies bounded by the caches entitled to hold them and by capacity, zero live / closed once / never read after close once everything is closed; the same under every single injected fault position.",
+   note=W+"; tracker mirrors the securememory contract; cross-checked with real memguard + InUseCounter", ref="3/C09"),
+ "C20": dict(level="exploration", engine="E1-world", technique="stateful PBT with virtual clock; call-count invariants over the spy metastore/KMS log",
+   text="Generated histories with repeated operations around the revoke-check interval: free repeats inside the interval, single re-read after it, at most one KMS unwrap per SK per factory per interval, nothing retained with caching disabled.",
+   note=W+"; asserted only when the working set fits the caches and outside key creation (rotation handling)", ref="3/C20"),
 }
 PENDING_REASON = "check not built yet in this session (planned in DESIGN.md section 3); not claimed until it runs silently on the unchanged tree"
 
@@ -33,6 +52,7 @@ def main():
 NA = {}
 FIX_COMMITS = []
 ENGINES = [
+ dict(name="E2-faults", path="harness/world/faults.go", serves_properties=["C02","C09","C10"], kind_free_text="re-executable pinned scenarios with fault plans addressed by call index (store/KMS/AEAD/allocator), positions enumerated"),
  dict(name="E1-world", path="harness/world", serves_properties=["C01","C03","C04","C05","C09","C10","C20"], kind_free_text="rapid state machine over the real SDK with virtual clock, spy store/KMS/AEAD, tracking secret factory, reference decryptor"),
 ]
 if __name__ == "__main__":
